@@ -2,6 +2,7 @@ package props
 
 import (
 	"encoding/binary"
+	"encoding/json"
 	"go/scanner"
 	"go/token"
 	"os"
@@ -93,5 +94,11 @@ func harvestDictionary() [][]byte {
 func init() {
 	if os.Getenv("VERIF_PLAN") == "" {
 		gen.SetDictionary(harvestDictionary())
+		if b, err := os.ReadFile(os.Getenv("VERIF_LOOKALIKES")); err == nil {
+			var l []gen.Lookalike
+			if json.Unmarshal(b, &l) == nil {
+				gen.SetLookalikes(l)
+			}
+		}
 	}
 }
